@@ -510,3 +510,102 @@ def stale_entity_write(kind: int, dv: int, sv: int, ev: int, esv: int, mv: int) 
     except Exception as ex:  # noqa: BLE001
         return exc_result(orc, ex)
     return orc.result()
+
+
+def stale_object_after_removal(kind: int, dv: int, sv: int, mv: int, pdv: int) -> str:
+    """
+    An object obtained BEFORE a transaction removed what it depends on is written afterwards - whatever the library does
+    (reject the call / the commit, or accept it), the MDIB stays referentially consistent and counters never go back:
+    0 entity of m0 obtained, then ch0 (its parent) removed, then write_entity(entity) in a descriptor transaction;
+    1 new_entity('m9' below ch0) made, ch0 removed, write_entity; 2 descriptor copy + state of m0 taken, ch0 removed,
+    add_descriptor(copy, state); 3 context state for lc0 built with mk_state_container, lc0 UPDATED, add_state in a context
+    transaction (the state must carry the descriptor's current version); 4 the same with lc0 REMOVED in between;
+    5 ONE descriptor transaction removes lc0 and creates a context descriptor lc9 whose state re-uses the handle lcs0
+    (entity interface); 6 the same through add_descriptor / add_state.
+    pre: 0 <= kind <= 6
+    pre: dv >= 0
+    pre: sv >= 0
+    pre: mv >= 0
+    pre: pdv >= 0
+    post: __return__ == 'ok'
+    """
+    orc = Oracle()
+    try:
+        pm, cap = _mk(dv, sv, mv, pdv)
+        pmn = pm.data_model.pm_names
+        held_ent = held_d = held_s = None
+        if kind == 0:
+            held_ent = pm.entities.by_handle('m0')
+        elif kind == 1:
+            held_ent = pm.entities.new_entity(pmn.StringMetricDescriptor, 'm9', 'ch0')
+            held_ent.descriptor.Unit = pm_types.CodedValue('u')
+            held_ent.descriptor.MetricCategory = pm_types.MetricCategory.MEASUREMENT
+            held_ent.descriptor.MetricAvailability = pm_types.MetricAvailability.CONTINUOUS
+        elif kind == 2:
+            held_d = pm.descriptions.handle.get_one('m0').mk_copy()
+            held_s = pm.states.descriptor_handle.get_one('m0').mk_copy()
+        elif kind in (3, 4):
+            lc = pm.descriptions.handle.get_one('lc0')
+            held_s = pm.data_model.mk_state_container(lc)
+            held_s.Handle = 'lcs9'
+        # ---- first transaction: what the held object depends on goes away / changes
+        if kind in (0, 1, 2):
+            with pm.descriptor_transaction() as tr:
+                tr.remove_descriptor('ch0')
+        elif kind == 3:
+            with pm.descriptor_transaction() as tr:
+                tr.get_descriptor('lc0').SafetyClassification = pm_types.SafetyClassification.MED_A
+        elif kind == 4:
+            with pm.descriptor_transaction() as tr:
+                tr.remove_descriptor('lc0')
+        first = 0 if kind in (5, 6) else 1
+        orc.check(pm.mdib_version == mv + first, 'mdib-version-not-incremented-by-one')
+        pre_v = _versions(pm)
+        mid_version = pm.mdib_version
+        # ---- second transaction: the held object is written
+        rejected = False
+        try:
+            if kind in (0, 1):
+                with pm.descriptor_transaction() as tr:
+                    tr.write_entity(held_ent)
+            elif kind == 2:
+                with pm.descriptor_transaction() as tr:
+                    tr.add_descriptor(held_d, state_container=held_s)
+            elif kind in (3, 4):
+                with pm.context_state_transaction() as tr:
+                    tr.add_state(held_s)
+            elif kind == 5:
+                ent = pm.entities.new_entity(pmn.LocationContextDescriptor, 'lc9', 'sc0')
+                ent.new_state('lcs0')
+                with pm.descriptor_transaction() as tr:
+                    tr.remove_entity(pm.entities.by_handle('lc0'))
+                    tr.write_entity(ent)
+            else:
+                nd = dc.LocationContextDescriptorContainer('lc9', 'sc0')
+                ns = pm.data_model.mk_state_container(nd)
+                ns.Handle = 'lcs0'
+                with pm.descriptor_transaction() as tr:
+                    tr.remove_descriptor('lc0')
+                    tr.add_descriptor(nd)
+                    tr.add_state(ns)
+        except Exception:  # noqa: BLE001 - rejected by the API or by the commit: then nothing may have changed
+            rejected = True
+        if rejected:
+            orc.check(pm.mdib_version == mid_version, 'rejected-transaction-changed-mdib-version')
+            orc.check(_versions(pm) == pre_v, 'rejected-transaction-changed-version-counters')
+        else:
+            orc.check(pm.mdib_version == mid_version + 1, 'mdib-version-not-incremented-by-one')
+        post_v = _versions(pm)
+        for key, old in pre_v.items():
+            if key in post_v:
+                orc.check(post_v[key] >= old, 'version-decreased:' + key[0])
+        if kind in (5, 6) and not rejected:
+            orc.check(('c', 'lcs0') in post_v and post_v[('c', 'lcs0')] > sv, 'recreated-state-version-not-greater')
+        with untraced():
+            idx_ok = k.index_snapshot(pm) == k.index_scan(pm)
+        orc.check(idx_ok, 'index!=scan')
+        for lab in k.referential_integrity(pm):
+            orc.fail(lab)
+    except Exception as ex:  # noqa: BLE001
+        return exc_result(orc, ex)
+    return orc.result()
